@@ -40,6 +40,9 @@ CLAIMED = {
  "C02": ("E3 backward provenance of every realtime field to gtfs-realtime.proto fields compared with the wire table; use-site rule for time.Unix/time.Date zones; polynomial normal form of the start time; E4 decision tables of the direction decoder, timezoneOrUTC and the nil-preserving converters; merge/guard rules shared with C07/C04; E5 taint for package-level state",
          "Structural necessary conditions of faithful transcription of the wire, decided for every message and timezone option: field-to-field bindings, allowed transformers, zone of every constructed instant, units, literal in-message flags, absent-stays-absent converters, one entry per descriptor. Numeric ranges and protobuf decoding are not decided.",
          "Oracle transcribed from gtfs-realtime.proto (DESIGN Appendix A.3); the time package's zone arithmetic and the protobuf runtime are trusted."),
+ "C03": ("pointer-provenance resolution over go/ssa (phis, id maps, cells) against the result's own collections, growth-discipline and single-writer rules, id-map key/value agreement, E1 facts at entity appends, acyclic-by-construction rule for Stop.Parent (guarded writer + bounded ancestor test shape) and loop classification of Stop.Root",
+         "Referential closure and the forest property are decided as invariants of the only code that creates the pointers, hence for every archive including malformed ones: every reference is an element address of the result's own slice taken after the slice stopped growing; required references are non-nil at the append; no store to Parent can close a cycle, so Root terminates. The arithmetic inside the ancestor walk is checked in shape only.",
+         "Slices handed from one phase to the next are not re-allocated afterwards (single writer phase is checked); Go's append semantics."),
 }
 REASON_TODO = "check under construction in this session (static rule set designed in DESIGN.md section 3, not yet implemented); not claimed until it runs clean on the unchanged tree"
 NOT_APPLICABLE = {}
